@@ -264,12 +264,12 @@ def helpers_check(ck, dialect, n):
             ck.violation({"kind": bad, "dialect": dialect, "count": st[bad], "first": lines[0][:3000] if lines else None}, found_input=True)
 
 
-def flow_sweep(ck, dialect, n):
+def flow_sweep(ck, dialect, n, enum_size=None):
     """Statement-level tie: for every function of generated programs, the control-flow skeleton of the emitted text (read by
     the independent parser) must be exactly the erasure of `CFlow.emit` applied to the skeleton of naga's IR statement tree,
     and the IR tree must satisfy the well-formedness hypotheses of the statement-level theorem."""
-    sub = "cflow-" + dialect
-    out = ck.harness("cflow", n, extra_args=[dialect], timeout=3000, subdir=sub)
+    sub = ("cflowenum-" if enum_size else "cflow-") + dialect
+    out = ck.harness("cflow", n, extra_args=[dialect] + (["enum", str(enum_size)] if enum_size else []), timeout=3000, subdir=sub)
     if out is None:
         return
     cases = os.path.join(out, "cases.txt")
@@ -319,6 +319,8 @@ def run(ck, dialect, prop_module, glsl_ub_excluded=False):
         helpers_check(ck, dialect, {"quick": 150, "thorough": 4000}.get(ck.tier, 150))
     if dialect in FLOW_MODELS:
         flow_sweep(ck, dialect, {"quick": 300, "thorough": 6000}.get(ck.tier, 300))
+        # exhaustive small scope: every statement tree of at most 3 (thorough: 4) nodes
+        flow_sweep(ck, dialect, 0, enum_size={"quick": 3, "thorough": 4}.get(ck.tier, 3))
     sweep(ck, dialect, "csem", n, glsl_ub_excluded)
     if ck.tier == "thorough":
         ck.leanchecker(["Naga.Tie.CEmit", prop_module])
